@@ -1,7 +1,7 @@
 #!/bin/bash
 # usage: seed_failures.sh <patch>  : print the failed obligations (function, kind, clause) Verus reports with the change applied
 cd /verif
-git -C /repo apply $1 || exit 3
+git -C /repo apply $(readlink -f $1) || exit 3
 ./check C06 --no-standins >/dev/null 2>&1
 python3 - <<'PY'
 import json,glob,os
